@@ -813,6 +813,101 @@ def p_many_crs(n, salt):
     return True, f"{n} custom CRSs"
 
 
+XBIG = [
+    # (query CRS, raster CRS, x range, y range of the query rectangle in the query CRS, minimal width, minimal height)
+    ("epsg:4326", "epsg:3577", (112, 152), (-40, -10), 20, 12),
+    ("epsg:4326", "epsg:3035", (-10, 40), (35, 68), 20, 12),
+    ("epsg:4326", "+proj=lcc +lat_1=30 +lat_2=50 +lat_0=40 +lon_0=100 +x_0=0 +y_0=0 +ellps=WGS84 +units=m +no_defs", (80, 120), (25, 55), 20, 12),
+    ("epsg:4326", "+proj=aea +lat_0=40 +lon_0=-96 +lat_1=20 +lat_2=60 +x_0=0 +y_0=0 +ellps=GRS80 +units=m +no_defs", (-125, -70), (25, 55), 25, 12),
+    ("epsg:4326", "epsg:32633", (8, 22), (20, 75), 8, 30),
+    ("epsg:3577", "epsg:4326", (-1900000, 1900000), (-4600000, -1100000), 2000000, 1500000),
+    ("epsg:3035", "epsg:4326", (2600000, 6400000), (1600000, 5200000), 2000000, 1500000),
+]
+
+
+def _ring(x0, y0, x1, y1, n):
+    """rectangle outline with n vertices per side (counter-clockwise, not closed)"""
+    xs = [x0 + (x1 - x0) * k / n for k in range(n)]
+    ys = [y0 + (y1 - y0) * k / n for k in range(n)]
+    return ([(x, y0) for x in xs] + [(x1, y) for y in ys] + [(x0 + (x1 - x0) * (n - k) / n, y1) for k in range(n)] +
+            [(x0, y0 + (y1 - y0) * (n - k) / n) for k in range(n)])
+
+
+def p_xbig(g, spec, rect, n, qcrs):
+    """large geometry query from another CRS with densified edges (its outline in the raster CRS is curved): every
+    tile clearly overlapping the query (more than 1e-4 of a full tile) is returned, no tile further than one pixel
+    from it is.  Reference: vertices through pyproj.Transformer(always_xy=True) called directly, tile footprints
+    from the affine and the tile pixel ranges, shapely."""
+    from affine import Affine
+    from pyproj import Transformer
+    from shapely.geometry import Polygon
+    from shapely.prepared import prep
+    from odc.geo import geom
+    gbt = mk_gbt(g, spec)
+    pts = _ring(*rect, n)
+    q = geom.polygon(pts + [pts[0]], keep_crs(qcrs))
+    try:
+        got = set(map(tuple, gbt.tiles(q)))
+    except Exception as e:
+        return False, f"raised {type(e).__name__}: {str(e)[:200]}"
+    tr = Transformer.from_crs(qcrs, g[2], always_xy=True)
+    X, Y = tr.transform([p_[0] for p_ in pts], [p_[1] for p_ in pts])
+    P = Polygon(list(zip(X, Y)))
+    if not P.is_valid or P.area == 0:
+        return True, "query outline not a valid polygon after projection (not judged)"
+    PP = prep(P)
+    A = Affine(*g[3:9])
+    px_area = abs(g[3] * g[7] - g[4] * g[6])
+    px = px_area ** 0.5
+    full = None
+    must = 0
+    for idx in all_idx(gbt):
+        ry, rx = gbt.roi[idx]
+        if full is None:
+            full = (ry.stop - ry.start) * (rx.stop - rx.start) * px_area       # tile (0, 0) is a full tile
+        T = Polygon([A * c for c in [(rx.start, ry.start), (rx.stop, ry.start), (rx.stop, ry.stop), (rx.start, ry.stop)]])
+        if PP.contains(T):
+            a = T.area
+        elif PP.intersects(T):
+            a = P.intersection(T).area
+        else:
+            a = 0.0
+        if a > 1e-4 * full:
+            must += 1
+            if idx not in got:
+                return False, (f"tile {idx} (rows {ry.start}:{ry.stop} cols {rx.start}:{rx.stop}) overlaps the query by {a / px_area:.1f} pixels "
+                               f"(pyproj always_xy + shapely reference) but is missing; {len(got)} tiles returned")
+        elif idx in got and P.distance(T) > px:
+            return False, f"tile {idx} is {P.distance(T) / px:.2f} pixels away from the query but is returned"
+    return True, f"{must} clearly overlapping tiles, {len(got)} returned"
+
+
+def gen_xbig(rng):
+    from pyproj import Transformer
+    qcrs, gcrs, xr, yr, minw, minh = rng.choice(XBIG)
+    w = rng.uniform(minw, xr[1] - xr[0])
+    h = rng.uniform(minh, yr[1] - yr[0])
+    x0 = rng.uniform(xr[0], xr[1] - w)
+    y0 = rng.uniform(yr[0], yr[1] - h)
+    rect = tuple(round(v, 4) for v in (x0, y0, x0 + w, y0 + h))
+    n = rng.choice([60, 120, 240])
+    pts = _ring(*rect, n)
+    tr = Transformer.from_crs(qcrs, gcrs, always_xy=True)
+    X, Y = tr.transform([p_[0] for p_ in pts], [p_[1] for p_ in pts])
+    bx0, bx1, by0, by1 = min(X), max(X), min(Y), max(Y)
+    mx, my = 0.04 * (bx1 - bx0), 0.04 * (by1 - by0)
+    bx0, bx1, by0, by1 = bx0 - mx, bx1 + mx, by0 - my, by1 + my
+    N = rng.randint(240, 420)
+    px = max(bx1 - bx0, by1 - by0) / N
+    px = float(f"{px:.3g}")
+    NX, NY = int((bx1 - bx0) / px) + 1, int((by1 - by0) / px) + 1
+    sx_, sy_ = rng.choice([(1, -1), (1, -1), (-1, -1), (1, 1)])
+    g = (NY, NX, gcrs, sx_ * px, 0.0, bx0 if sx_ > 0 else bx0 + NX * px, 0.0, sy_ * px, by1 if sy_ < 0 else by1 - NY * px)
+    ta, tb = rng.choice([6, 8, 10, 16]), rng.choice([30, 40, 60])
+    spec = ("reg", ta, tb) if rng.random() < 0.6 else ("reg", tb, ta)
+    return g, spec, rect, n, qcrs
+
+
 def p_xquery(g, spec, qpts, qcrs):
     """geometry query given in another CRS: the tiles returned are exactly those whose footprint overlaps the query.
     Reference independent of odc.geo.crs / Geometry.to_crs: query vertices moved with pyproj.Transformer
@@ -978,7 +1073,7 @@ def p_crossref(gd, gs, sd, ss):
 
 
 PREDICATES = {"locate": p_locate, "pixquery": p_pixquery, "geomquery": p_geomquery, "linear": p_linear,
-              "general": p_general, "crossref": p_crossref, "xquery": p_xquery, "many_crs": p_many_crs}
+              "general": p_general, "crossref": p_crossref, "xquery": p_xquery, "many_crs": p_many_crs, "xbig": p_xbig}
 
 
 def search(out, tier):
@@ -1060,6 +1155,10 @@ def search(out, tier):
     for gi in range(24 if not big else 200):
         run("xquery", *gen_xquery(rng, CUSTOM_CRS[gi % len(CUSTOM_CRS)] if gi % 4 == 3 else None))
 
+    # large densified queries whose outline is curved in the raster CRS (wide lon/lat rectangles into conic / equal-area /
+    # UTM rasters and projected rectangles into lon/lat rasters), tiles small relative to the bulge
+    for gi in range(12 if not big else 60):
+        run("xbig", *gen_xbig(rng))
     run("many_crs", 160 if not big else 400, rng.randrange(1000))
     # ---- process histories of the CRS layer (tools/vlib/crshist.py): the same cross-CRS clauses must hold whatever the
     #      process asked of odc.geo.crs before.  Evaluated in a fresh interpreter (see tools/vlib/c12c14_hist.py); a
